@@ -51,6 +51,15 @@ func (v *Validator) HasJob(jobID string) bool {
 	return ok
 }
 
+// GetJobDiff returns the difficulty that was in force when the job was announced
+func (v *Validator) GetJobDiff(jobID string) (float64, bool) {
+	job, ok := v.jobs.Get(jobID)
+	if !ok {
+		return 0, false
+	}
+	return job.GetDiff(), true
+}
+
 func (v *Validator) ScheduleCleanJobs() {
 	expirationTime := time.Now().Add(v.cleanJobTimeout)
 
